@@ -88,7 +88,8 @@ func (m *PositionMapper) LineUTF16Len(line int) int {
 	if line < 0 || line >= len(m.lines) {
 		return 0
 	}
-	return UTF16Len(m.lines[line])
+	// the "\r" of a CRLF line ending is part of the terminator, not of the line
+	return UTF16Len(strings.TrimSuffix(m.lines[line], "\r"))
 }
 
 func (m *PositionMapper) LineRuneLen(line int) int {
